@@ -33,15 +33,16 @@ def build(reg):
     reg.specfun("plsum", [("s", REAL), ("z", REAL), ("n", INT)], REAL, base="0.0", rec="plsum(s, z, n - 1) + zpow(z, n) / rpow(n, s)")
     m = reg.module("gcmpy/distributions/power_law.py")
     m.fn("power_law.zeta", params={"s": REAL}, ret=REAL,
-         ensures={"partial_sum": "k >= 1 and result == psum(s, k)", "stops_at_first_small_term": f"1.0 / rpow(k, s) < {TOL} and forall(j, 1, k, 1.0 / rpow(j, s) >= {TOL})"},
-         loops={0: dict(inv={"k": "k >= 1", "sum": "l == psum(s, k - 1)", "tol": f"tol == {TOL}", "not_yet": f"forall(j, 1, k, 1.0 / rpow(j, s) >= {TOL})"})})
+         # "to within the series-truncation tolerance": the series is cut at a term below 1e-6 -- a tighter cut also satisfies the statement, so neither the exact tolerance nor
+         # "at the FIRST small term" is pinned
+         ensures={"partial_sum": "k >= 1 and result == psum(s, k)", "cut_at_a_term_below_the_tolerance": f"abs(1.0 / rpow(k, s)) < {TOL}"},
+         loops={0: dict(inv={"k": "k >= 1", "sum": "l == psum(s, k - 1)", "tol": f"0 < tol and tol <= {TOL}"})})
     m.fn("power_law.p", params={"k": INT, "alpha": REAL, "C": REAL}, ghost=["alpha", "C"], ret=REAL, requires={"C": "C != 0"}, ensures={"formula": "result == rpow(k, -alpha) / C"})
     ms = reg.module("gcmpy/distributions/scale_free_cut_off.py")
     ms.fn("scale_free_cut_off.polylog", params={"s": REAL, "z": REAL}, ret=REAL,
           ensures={"partial_sum": "k >= 1 and result == plsum(s, z, k)",
-                   "stops_at_first_small_term": f"abs(zpow(z, k) / rpow(k, s)) < {TOL} and forall(j, 1, k, abs(zpow(z, j) / rpow(j, s)) >= {TOL})"},
-          loops={0: dict(inv={"k": "k >= 1", "sum": "l == plsum(s, z, k - 1)", "zk": "zk == zpow(z, k)", "tol": f"tol == {TOL}",
-                              "not_yet": f"forall(j, 1, k, abs(zpow(z, j) / rpow(j, s)) >= {TOL})"})})
+                   "cut_at_a_term_below_the_tolerance": f"abs(zpow(z, k) / rpow(k, s)) < {TOL}"},
+          loops={0: dict(inv={"k": "k >= 1", "sum": "l == plsum(s, z, k - 1)", "zk": "zk == zpow(z, k)", "tol": f"0 < tol and tol <= {TOL}"})})
     ms.fn("scale_free_cut_off.p", params={"k": INT, "alpha": REAL, "kappa": REAL, "C": REAL}, ghost=["alpha", "kappa", "C"], ret=REAL,
           requires={"C": "C != 0", "kappa": "kappa != 0"}, ensures={"formula": "result == rpow(k + 0.0, -alpha) * exp(-(k + 0.0) / kappa) / C"})
     mx = reg.module("gcmpy/distributions/exponential.py")
